@@ -11,11 +11,12 @@ Expression trees in prefix form (`<ty>` = i8 … u64):
   o <ty> <id>             any other value (parameter …)      (model only)
 
 Requests
+  pass <e>                           Model.ConstFold.passTree  → ok <e'> (the function after the pass, read from its result) | err <Exc>
   instr <e>                          Model.ConstFold.onInstr   → ok skip | ok keep | ok replace <ty> <v> | ok rechain <ty> <v> | err <Exc>
   spec <e>                           Spec.ConstExpr.eval       → ok <v> | ok undef
   inrange <ty> <v>                   Spec.IRArith.InRange      → ok true | ok false
   specchain <ty> <op1> <op2> <y> <c1> <c2> <c3>   → ok <(y op1 c1) op2 c2> <y op2 c3>   (Spec values, `undef` possible)
-  row <lo> <hi> <request with @>     the request for @ = lo..hi, replies joined with `|`
+  row <lo> <hi> <request with @>     the request for @ = lo..hi, replies joined with `;`
 -/
 open Proto
 
@@ -41,6 +42,12 @@ partial def parse : List String → Option (Expr × List String)
       let (b, r2) ← parse r1
       pure (.binop ty op a b, r2)
   | _ => none
+
+def render : Expr → String
+  | .const ty v => s!"c {ty.name} {v}"
+  | .other ty n => s!"o {ty.name} {n}"
+  | .cast ty e => s!"k {ty.name} {render e}"
+  | .binop ty op a b => s!"b {ty.name} {op} {render a} {render b}"
 
 def showAction : Except Err Action → String
   | .ok .skip => "ok skip"
@@ -80,6 +87,13 @@ end S
 
 def step1 (ws : List String) : String :=
   match ws with
+  | "pass" :: rest =>
+    match M.parse rest with
+    | some (e, []) =>
+      match Model.ConstFold.passTree e with
+      | .ok e' => "ok " ++ M.render e'
+      | .error x => "err " ++ x.name
+    | _ => "bad-op"
   | "instr" :: rest =>
     match M.parse rest with
     | some (e, []) => M.showAction (Model.ConstFold.onInstr e)
@@ -107,7 +121,7 @@ def step (line : String) : String :=
     match int? lo, int? hi with
     | some lo, some hi =>
       let n := (hi - lo + 1).toNat
-      "|".intercalate ((List.range n).map (fun (i : Nat) =>
+      ";".intercalate ((List.range n).map (fun (i : Nat) =>
         let v := toString (lo + Int.ofNat i)
         step1 (rest.map (fun w => if w == "@" then v else w))))
     | _, _ => "bad-op"
